@@ -75,6 +75,8 @@ def realise_arg(v):
                     a, b = s.split("/")
                     return float(a) / float(b)
                 return float(s)
+            if meta.get("is_df") is True and d1 == 0:
+                d1 = 1      # a frame has at least one column in practice; keep the row count of the model
             if d0 > 50 or d1 > 50:
                 raise CannotRealise("input of shape (%s,%s)" % (d0, d1))
             if meta.get("is_df") is True:
@@ -136,6 +138,10 @@ def replay_obligation(doc):
                 return {"confirmed": bool(mon.failures), "mode": "constructor", "exception": repr(e),
                         "failed": [f.clause for f in mon.failures]}
         else:
+            if getattr(cls, "__abstractmethods__", None):
+                # abstract base class: a concrete subclass that only forwards to the base methods
+                cls = type(cname, (cls,), {m: (lambda self, *a, _m=m, _c=cls, **k: getattr(_c, _m)(self, *a, **k))
+                                           for m in cls.__abstractmethods__})
             obj = cls.__new__(cls)
             ghost = types.SimpleNamespace()
             for f, v in (selfd or {}).items():
